@@ -586,6 +586,7 @@ func c19Table(r *rng, id string) {
 
 func TestC19(t *testing.T) {
 	runSel(t, "C19", 940)
+	forCases(20, 198, "d", func(i int, r *rng, id string) { c19DupAck(r, id) })
 	n := envInt("VERIF_N", 1500)
 	if thorough() {
 		n = envInt("VERIF_N", 60000)
@@ -609,4 +610,43 @@ func TestC19(t *testing.T) {
 	forCases(n/3, 194, "t", func(i int, r *rng, id string) {
 		synctest.Test(t, func(t *testing.T) { c19Table(r, id) })
 	})
+}
+
+// c19DupAck: duplicates of an acknowledgement arrive while the handler of the first one is still running (a relay
+// forwarding the success): the number was answered, so the duplicates have no effect and the record is gone.
+func c19DupAck(r *rng, id string) {
+	n, err := newC19(0, "off", 8)
+	if err != nil {
+		return
+	}
+	defer n.m.Shutdown()
+	seq := uint32(100 + r.intn(100000))
+	var calls int32
+	entered := make(chan struct{}, 16)
+	release := make(chan struct{})
+	ml.VerifSetAckHandlerFn(n.m, seq, func() {
+		atomic.AddInt32(&calls, 1)
+		entered <- struct{}{}
+		<-release
+	}, time.Minute)
+	var wg sync.WaitGroup
+	wg.Add(1)
+	go func() { defer wg.Done(); ml.VerifInvokeAck(n.m, seq) }()
+	select {
+	case <-entered:
+	case <-time.After(5 * time.Second):
+		emit("C19 dupack id=%s dups=0 calls=0 pending=-1", id)
+		close(release)
+		return
+	}
+	dups := 1 + r.intn(3)
+	for i := 0; i < dups; i++ {
+		wg.Add(1)
+		go func() { defer wg.Done(); ml.VerifInvokeAck(n.m, seq) }()
+	}
+	time.Sleep(30 * time.Millisecond)
+	pending := ml.VerifNumAckHandlers(n.m)
+	close(release)
+	wg.Wait()
+	emit("C19 dupack id=%s dups=%d calls=%d pending=%d", id, dups, atomic.LoadInt32(&calls), pending)
 }
